@@ -40,6 +40,7 @@ func inj(tag string, q byte) scen.Step {
 func handle(h int) scen.Step { return scen.Step{Op: "handle", H: h} }
 
 var workloads = map[string]workload{
+	"subs7": {Steps: []scen.Step{pub(1, "p0"), sub(ss("a", 1)), unsub("a"), sub(ss("b", 1)), sub(ss("b", 2)), pub(1, "p1")}},
 	"q2sub": {Steps: []scen.Step{subw(ss("u/s1", 1)), pub(2, "a"), sub(ss("u/s2", 2)), pub(2, "b"), op("cut"), pub(2, "c")}},
 	// the client subscribes to what it publishes: inbound traffic (acknowledged by the reader goroutine) runs
 	// alongside the outbound exchanges; only meaningful with the Echo broker configuration
@@ -279,7 +280,8 @@ func genRetry(spec retrySpec, tier string) []fw.Case {
 					cs = append(cs, fw.Mk(fmt.Sprintf("repeat/%s/%d", name, i), c))
 				}
 			}
-			if spec.Drops {
+			if spec.Drops && (c.Client == "" || wn == "subs7" || wn == "q2x2") {
+				// (dropped acknowledgements need real time-outs: the full matrix only for the library's own loop)
 				c.Mode, c.N, c.Part = "drops", 0, 0
 				cs = append(cs, fw.Mk("drops/"+name, c))
 			}
